@@ -1229,6 +1229,9 @@ enum Op {
     DropLlgrStale { peer: u8 },
     Reconnect { peer: u8 },
     Nh { nh: u8, up: bool },
+    /// restarting speaker: notifications of the family are held back; eligibility and order are not
+    StartDeferral,
+    EndDeferral,
 }
 
 struct Rec {
@@ -1246,6 +1249,7 @@ pub struct Sys {
     mirror: BTreeMap<(usize, u32), Rec>,
     /// signatures currently failing: reported only on the step that breaks them
     broken: BTreeSet<String>,
+    deferring: bool,
 }
 
 pub struct HistModel {
@@ -1273,6 +1277,8 @@ impl HistModel {
             Op::DropLlgrStale { peer } => format!("drop_llgr_stale({})", p(peer)),
             Op::Reconnect { peer } => format!("reconnect({})", p(peer)),
             Op::Nh { nh, up } => format!("nexthop(N{},{})", nh + 1, if *up { "up" } else { "down" }),
+            Op::StartDeferral => "start_deferral".to_string(),
+            Op::EndDeferral => "end_deferral".to_string(),
         }
     }
     fn mk_source(&self, peer: u8) -> Arc<Source> {
@@ -1459,6 +1465,7 @@ impl Model for HistModel {
             invalid: BTreeSet::new(),
             mirror: BTreeMap::new(),
             broken: BTreeSet::new(),
+            deferring: false,
         }
     }
 
@@ -1542,6 +1549,20 @@ impl Model for HistModel {
                 }
                 changes.extend(sys.t.update_nexthop_validity(nh4(1 + *nh).unwrap().addr(), *up));
             }
+            Op::StartDeferral => {
+                if sys.deferring {
+                    return false;
+                }
+                sys.t.start_deferral(fam);
+                sys.deferring = true;
+            }
+            Op::EndDeferral => {
+                if !sys.deferring {
+                    return false;
+                }
+                changes.extend(sys.t.end_deferral(fam));
+                sys.deferring = false;
+            }
         }
         let mut cur_v: Vec<(String, String)> = Vec::new();
         self.check(sys, &changes, &name, &mut cur_v);
@@ -1571,7 +1592,7 @@ impl Model for HistModel {
             }
             s.push('|');
         }
-        let _ = write!(s, "u{:?}i{:?}b{:?}", sys.up, sys.invalid, sys.broken);
+        let _ = write!(s, "u{:?}i{:?}b{:?}d{}", sys.up, sys.invalid, sys.broken, sys.deferring as u8);
         s.into_bytes()
     }
 
@@ -1686,6 +1707,20 @@ fn packs() -> Vec<HistModel> {
                 vec![Op::Nh { nh: 0, up: false }, Op::Nh { nh: 0, up: true }, Op::Nh { nh: 1, up: false }, Op::Nh { nh: 1, up: true }],
                 session_ops(&[0]),
                 vec![Op::Remove { peer: 2, id: 0 }, Op::Remove { peer: 0, id: 0 }, Op::Drop { peer: 1 }],
+            ]),
+        ),
+        // restarting speaker: next-hop flips, announcements and withdrawals while selection is deferred
+        mk(
+            "nht-deferral",
+            false,
+            [Ebgp, Ibgp, Ebgp],
+            [0x0a0a0010, 0x0a0a0020, 0x0a0a0030],
+            vec![("Y", K_Y), ("X", K_X)],
+            cat(vec![
+                vec![Op::StartDeferral, Op::EndDeferral],
+                all_ins(2, two_nh),
+                vec![Op::Nh { nh: 0, up: false }, Op::Nh { nh: 0, up: true }, Op::Nh { nh: 1, up: false }, Op::Nh { nh: 1, up: true }],
+                vec![Op::Remove { peer: 0, id: 0 }, Op::Remove { peer: 1, id: 0 }],
             ]),
         ),
         // route server: three RS clients (the RS-local view)
